@@ -126,3 +126,32 @@ Theorem C03_created_only_opens_empty : forall cv ck ch, 0 < cv -> 0 < ck -> 0 < 
       hx s'' = hx (create t n) /\ keyf s'' = keyf (create t n) /\ valf s'' = valf (create t n) /\
       contents s'' = Ok []).
 Proof. exact C03_created_only. Qed.
+
+(** AT BYTE LEVEL, OVER THE CONCRETE BUFFER (Io_durable.v): the I/O the map layer really performs
+    ([Io], compared with the crate's fine trace event by event) issued against the executable model
+    of rabuf's BufFile ([Cache.Rabuf], run against the real rabuf on every C07 check) in front of
+    each of the three files, in ANY configuration ([backs]: any chunk table, any number of chunks,
+    auto / per-mille growth).  After creation (a power of two of buckets) and ANY history: when the
+    three buffers are flushed, the three files on the disk are exactly [render] of the current
+    state, and the independent reader reads the ideal map's contents back from them.  (All calls
+    succeed here; the failing branch is C16.) *)
+From Aby Require Import Cache Cache_x Io Io_run Io_flat Io_flat_ro Io_cache Io_flat_upd Io_durable.
+
+Theorem C03_byte_level_flush_durable_over_any_buffer : forall t n bk bv bh ops,
+  1 <= n -> pow2 n -> Forall (op_wf t) ops -> sized (Store.create t n) ops ->
+  exists s' (cf : Io.fid -> list call),
+    store_run (Store.create t n) ops = Ok (s', snd (spec_run ∅ ops)) /\
+    forall ck cv ch fuel,
+      backs ck (Io.get_file (Io.empty_st bk bv bh) Io.FKey) ->
+      backs cv (Io.get_file (Io.empty_st bk bv bh) Io.FVal) ->
+      backs ch (Io.get_file (Io.empty_st bk bv bh) Io.FHtx) ->
+      (forall f c, In (f, c) [(Io.FKey, ck); (Io.FVal, cv); (Io.FHtx, ch)] ->
+         (xrun_fuel (Rabuf.k_cs c) (flat_of (Io.get_file (Io.empty_st bk bv bh) f)) (map call_op (cf f)) <= fuel)%nat) ->
+      exists dk dv dh,
+        flushed_disk fuel ck (cf Io.FKey) = Ok dk /\
+        flushed_disk fuel cv (cf Io.FVal) = Ok dv /\
+        flushed_disk fuel ch (cf Io.FHtx) = Ok dh /\
+        render s' = Ok (dh, dk, dv) /\
+        exists s'' l, load t (dh, dk, dv) = Ok s'' /\ contents s'' = Ok l /\
+                      l ≡ₚ map_to_list (fst (spec_run ∅ ops)).
+Proof. exact flush_durable_over_any_buffer. Qed.
